@@ -228,7 +228,8 @@ def write_project(ex, case, prefix="c16_", extreme=False):
         return "%-9s %3d %-3s %s" % (fid + "Y", lrnd.randrange(10, 200), "KAS", fmt_date(numday(case["B"] + lrnd.randrange(-100, 600)), f))
     fl = c10.interleave(lrnd, ["%-9s %5s %-3s %s" % (fid, a, nm, fmt_date(numday(d), f)) for (d, a, nm) in sched], other_fert) if sched else []
     open(os.path.join(dst, "fert_%s.txt" % name), "w").write("Field_ID  N   Frt date\n" + "".join(l + "\n" for _, l in fl) + "end\n")
-    open(os.path.join(dst, "til_%s.txt" % name), "w").write("Field_ID  Ti Typ date\n          cm\nend\n")
+    open(os.path.join(dst, "til_%s.txt" % name), "w").write("Field_ID  Ti Typ date\n          cm\n" + "".join(
+        "%-9s %2d %d   %s\n" % (fid, dep, ty, fmt_date(numday(d), f)) for (d, dep, ty) in case.get("till", [])) + "end\n")
     open(os.path.join(dst, "irr_%s.txt" % name), "w").write("Field_ID  Ir N03 date\n          mm mg/l\nend\n")
     open(os.path.join(dst, "poly_%s.txt" % name), "w").write("Polyg SID  Field_ID  GH GL Ir comment\n10001 001 %s    99 99 0 own\nend\n" % fid)
     rows = []
@@ -349,11 +350,13 @@ def run_cases(ctx, cases, prefix, extreme=False):
     open(lf, "w").write("\n".join(lines) + "\n")
     rc, recs, orc, other, err = waterlib.run_harness(ctx, "c16", ["-work", ex, "-lines", lf, "-slots", "8"])
     for c in cases:
-        c.update(init=None, final=None, run=None, sow=[], hdec=[], harv=[], airr=[], af=[], log=None, crec=None)
+        c.update(init=None, final=None, run=None, sow=[], hdec=[], harv=[], airr=[], af=[], till=[] if not isinstance(c.get("till"), list) else c["till"], tillrec=[], log=None, crec=None)
     for r in recs:
         c = cases[r["line"]]
         if r["k"] in ("init", "final", "run"):
             c[r["k"]] = r
+        elif r["k"] == "till":
+            c["tillrec"].append(r)
         else:
             c[r["k"]].append(r)
     for c in cases:
@@ -435,6 +438,20 @@ def hs_run(ctx):
     rnd = random.Random(ctx.seed * 13 + 2016)
     n = 160 if ctx.thorough else 14
     cases = [make_case(rnd, i, force_sw=rnd.choice([8, 8, 12, 10, 14]), org_p=0.0) for i in range(n)]
+    for cs in cases:
+        # tillage dated before sowing and inside the stand of every entry (fixed sowing date, harvest decided automatically)
+        till, last = [], cs["B"] + 3
+        for k in range(1, len(cs["crops"])):
+            code, s_, h_, w_ = cs["crops"][k]
+            d1 = daynum(s_) - rnd.randrange(3, 12)
+            if d1 > last + 6:
+                till.append((d1, rnd.choice([5, 10, 20]), 1, "before", k))
+            d2 = daynum(s_) + rnd.randrange(15, 50)
+            if d2 < daynum(h_) - 25 and rnd.random() < 0.8:
+                till.append((d2, rnd.choice([5, 10, 20]), 1, "inside", k))
+            last = daynum(w_["latest"]) + 4
+        cs["till_plan"] = till
+        cs["till"] = [(d, dep, ty) for d, dep, ty, _, _ in till]
     rc, cases, err, ex = run_cases(ctx, cases, "c10hs_")
     more = second_pass_cases(ctx, rnd, cases, 48 if ctx.thorough else 6) if rc == 0 else []
     if more:
@@ -469,11 +486,10 @@ def org_run(ctx):
 
 
 def rejected(cs):
-    """the code refused the generated input by design (run error 'tillage date ... before harvest ...': a tillage date inside the
-    growing period of a crop — here the date the crop-skip branch sets, pushed along under automatic harvest until it meets the
-    forced harvest date): not a property failure; counted in the evidence"""
-    r = cs.get("run")
-    return bool(r and not r["success"] and re.match(r"tillage date \S+ before harvest ", r.get("err") or ""))
+    """formerly: run error 'tillage date ... before harvest ...' of a generated run under automatic harvest (the date the crop-skip
+    branch sets rode along until it met the forced harvest).  Since /repo F35 (tillage waits only while the crop is in the ground,
+    and is put right after an automatic harvest) this cannot happen any more: no tolerance"""
+    return False
 
 
 def has_skip(cs):
@@ -500,7 +516,7 @@ HDR10 = ["From Coq Require Import ZArith List Bool Floats Uint63 String.", "From
          "Import ListNotations.", "Open Scope float_scope."]
 KIND = {"sow": "automatic-sowing-decision", "hdec": "automatic-harvest-decision (some trigger value)", "hdec2": "automatic-harvest-decision (modelled condition)",
         "airr": "automatic-irrigation (decision and amount on the probed state)", "af": "automatic-fertilisation call",
-        "hcur": "harvest cursor / organic date / crop skip", "skip": "crop skip: NAOS[0]/DSUMM/NFOS[0] against the same harvest call without skip", "rot": "rotation-event-sequence", "odueng": "organic fertiliser split (dueng)"}
+        "hcur": "harvest cursor / organic date / crop skip", "till": "tillage date under automatic harvest / firing", "skip": "crop skip: NAOS[0]/DSUMM/NFOS[0] against the same harvest call without skip", "rot": "rotation-event-sequence", "odueng": "organic fertiliser split (dueng)"}
 AF_MASK = ["DSUMM", "NFERTSIM", "NDOY1..3", "ZTDG[AKF]", "which organic application fired"]
 
 
@@ -528,7 +544,7 @@ def org_dgmg(cs, k):
 def build_records(cases, c, table=None):
     """Coq terms of every probed decision; returns the groups [(name, [(term, case, record)], check, type, header)]"""
     from props import c10
-    sow, hdec, hdec2, airr, af, hcur, rot, odu, skp = [], [], [], [], [], [], [], [], []
+    sow, hdec, hdec2, airr, af, hcur, rot, odu, skp, til = [], [], [], [], [], [], [], [], [], []
     for cs in cases:
         sws = sws_of(cs)
         if rejected(cs):
@@ -603,6 +619,9 @@ def build_records(cases, c, table=None):
                           ", ".join(fl(r[a]) for a in ("intwick", "tagnum", "regen", "regen_prev", "regen_next")),
                           fls(r["t5"]), fls(r["c1"]), fls(r["ndem"]), fls(r["ndoy"]), fls(r["pay_prev"]), fls(r["pay_cur"]), fls(r["pools"]),
                           fls(r["post"]), u(r["ztdg_post"]), waterlib.b(r["h_fire"]), waterlib.b(r["s_fire"])), cs, r))
+        for r in cs["tillrec"]:
+            til.append(("((%s, %s, %s, %s, %s), (%s, %s))" % (u(r["zeit"]), u(r["saat"]), u(r["ernte"]), u(r["einte"]), waterlib.b(r["autohar"]),
+                                                            u(r["einte_after"]), waterlib.b(r["fired"])), cs, r))
         for r in cs["harv"]:
             hcur.append(("((%s, %s, %s, %s, %s, %s, %s), (%s, %s, %s))"
                          % (u(r["zeit"]), u(r["akf"]), waterlib.b(r["org_h"]), u(r["orgdoy"]), u(r["saat2_next"]), waterlib.b(r["automan"]), u(r["ztdg_before"]),
@@ -626,7 +645,8 @@ def build_records(cases, c, table=None):
               ("af", af, "af_check", "((int * int * int * int) * (bool * int * bool * int * int) * (float * float * float * float * float) * (list float * list float * list float * list float) * (list float * list float * list float) * (list float * int * bool * bool))", HDR),
               ("hcur", hcur, "hcur_check", "((int * int * bool * int * int * bool * int) * (int * int * int))", HDR),
               ("skip", skp, "skip_check", "((float * float * float) * (float * float * float) * (float * float * float))", HDR),
-              ("rot", rot, "rot_check", "(int * int * (list int * list int * list int) * list (int * int * int))", HDR)]
+              ("rot", rot, "rot_check", "(int * int * (list int * list int * list int) * list (int * int * int))", HDR),
+              ("till", til, "till_check", "((int * int * int * int * bool) * (int * bool))", HDR)]
     if table is not None:
         groups.append(("odueng", odu, "(dueng_check tab)", "(string * float * (float * float * float * float))",
                        HDR10 + ["Definition tab : list (frow float) := %s." % c10._table_coq(table)]))
